@@ -816,17 +816,14 @@ def _theta_source(rep, rot, L, theta_id, mode, pm):
                     ok = c == m + u - m * u
                     why = None if ok else 'cos(thetaC) = %r' % c
                     src_angle = ms[0][2:]
-                    ok = ok and src_angle == 'aperture_angle'
-                    if src_angle != 'aperture_angle':
-                        why = 'the lower bound is cos(%s), not cos(aperture_angle)' % src_angle
                 else:
                     why = 'cos(thetaC) = %r' % c
             except AnalysisBroken as ex:
                 why = str(ex)
     else:
         why = '%d definitions of the polar angle' % len(defs)
-    rep.add('SAMPLING', mode + ':within-cone', where(rot, d.get('l')), 'cos(thetaC) = m + (1 - m) u with m = cos(aperture_angle) '
-            'and u one deviate: thetaC <= aperture_angle for every u in [0, 1]', ok, why)
+    rep.add('SAMPLING', mode + ':within-cone', where(rot, d.get('l')), 'cos(thetaC) = m + (1 - m) u with m = cos(cone bound) '
+            'and u one deviate: thetaC <= cone bound for every u in [0, 1]', ok, why)
 
 
 def _sampling(rep, prog, rot, pm):
@@ -837,49 +834,40 @@ def _sampling(rep, prog, rot, pm):
     a, b = (_norm(w['body']) for w in whiles)
     rep.add('SAMPLING', 'siblings', where(rot, whiles[1].get('l')), 'the target-mode and selection-mode sampling loops are the '
             'same statements', a == b, None if a == b else _first_diff(a, b))
-    # aperture_angle and the window limits
-    names = {v['name']: v for v in L.decl.values() if v.get('name') in ('aperture_angle', 'aperture_x_max', 'aperture_y_max')}
-    if set(names) != {'aperture_angle', 'aperture_x_max', 'aperture_y_max'}:
-        raise AnalysisBroken('aperture locals not found')
-
-    def member_deps(e, seen=()):
-        out = {x['name'] for x in astu.walk(e) if x['k'] == 'Member' and x.get('base', {}).get('k') == 'This'}
-        for x in astu.walk(e):
-            if x['k'] == 'Ref' and x.get('dk') == 'local' and x['id'] not in seen:
-                v = L.decl.get(x['id'])
-                if v is None:
-                    continue
-                if 'init' in v:
-                    out |= member_deps(v['init'], seen + (x['id'],))
-                for asg in L.assigns.get(x['id'], []):
-                    out |= member_deps(asg['b'], seen + (x['id'],))
-        return out
-    for nm, want in (('aperture_x_max', {'_cone_angle_'}), ('aperture_y_max', {'_cone_angle2_'})):
-        asg = L.assigns.get(names[nm]['id'], [])
-        ok = len(asg) == 1
-        detail = None
-        if ok:
-            e = astu.strip_casts(asg[0]['b'])
-            ok = e['k'] == 'Call' and e['callee']['qn'] in ('tan', 'std::tan') and member_deps(e) == want
-            detail = None if ok else astu.src(e)
-            g = _enclosing(pm, asg[0], 'If')
-            ok = ok and g is not None and '_cone_angle2_' in astu.src(g['c']) and 'isnormal' in astu.src(g['c'])
-        rep.add('SAMPLING', 'window:' + nm, where(rot, names[nm].get('l')), '%s = tan(%s), set when a second half-angle is given'
-                % (nm, sorted(want)[0]), ok, detail)
-    asg = L.assigns.get(names['aperture_angle']['id'], [])
-    okA = astu.src(names['aperture_angle'].get('init')) == '_cone_angle_' and len(asg) == 1
+    # aperture bound and window limits, by role (through locals and cached data members)
+    R = _Resolver(prog, rot, L, pm)
+    bounds = set()
+    for w in whiles:
+        for n in astu.walk(w['body']):
+            if n['k'] == 'Decl':
+                for v in n['vars']:
+                    i = astu.strip_casts(v['init']) if 'init' in v else None
+                    if i is not None and i['k'] == 'Call' and i['callee']['qn'] in ('cos', 'std::cos') and \
+                            astu.strip_casts(i['args'][0])['k'] in ('Ref', 'Member') and astu.src(i['args'][0]) != 'phiC':
+                        bounds.add(astu.src(i['args'][0]))
+                        bnode = astu.strip_casts(i['args'][0])
+    if len(bounds) != 1:
+        raise AnalysisBroken('cone bound cos(<aperture>) not found in the sampling loops: %s' % sorted(bounds))
+    ds = R.defs(bnode)
+    plain = [d for d, g in ds if astu.src(astu.strip_casts(d)) == '_cone_angle_']
+    corner = [(d, g) for d, g in ds if astu.src(astu.strip_casts(d)) != '_cone_angle_']
+    okA = len(plain) == 1 and len(corner) == 1
+    detail = None
     if okA:
-        e = astu.strip_casts(asg[0]['b'])
-        # atan2(hypot(xmax, ymax), 1): the polar angle of the window's corner, so the cone encloses the window
-        okA = e['k'] == 'Call' and e['callee']['qn'] in ('atan2', 'std::atan2') and astu.num_value(astu.strip_casts(e['args'][1])) == 1
+        e, g = corner[0]
+        e = astu.strip_casts(e)
+        okA = e['k'] == 'Call' and e['callee']['qn'] in ('atan2', 'std::atan2') and astu.num_value(astu.strip_casts(e['args'][1])) == 1 \
+            and any('_cone_angle2_' in x and 'isnormal' in x for x in g)
         if okA:
-            h = astu.strip_casts(e['args'][0])
-            if h['k'] == 'Ref':
-                h = astu.strip_casts(L.decl[h['id']]['init'])
-            okA = h['k'] == 'Call' and h['callee']['qn'] in ('hypot', 'std::hypot') and \
-                {astu.src(x) for x in h['args']} == {'aperture_x_max', 'aperture_y_max'}
-    rep.add('SAMPLING', 'window:enclosing-cone', where(rot, names['aperture_angle'].get('l')), 'aperture_angle = _cone_angle_, or '
-            'atan2(hypot(x_max, y_max), 1) (the corner of the window) when a window is given', okA)
+            h = R.call_form(e['args'][0], ('hypot', 'std::hypot'))
+            okA = h is not None and sorted(R.tan_of(x) or '?' for x in h['args']) == ['_cone_angle2_', '_cone_angle_']
+        if not okA:
+            detail = astu.src(e)
+    else:
+        detail = 'definitions: %s' % [astu.src(d) for d, g in ds]
+    rep.add('SAMPLING', 'window:enclosing-cone', where(rot, bnode.get('l')), 'the cone bound %s is _cone_angle_, or '
+            'atan2(hypot(tan _cone_angle_, tan _cone_angle2_), 1) (the corner of the window) when a window is given' % bounds.pop(),
+            okA, detail)
     for w, mode in zip(whiles, ('target', 'selection')):
         ifs = [n for n in astu.walk(w['body']) if n['k'] == 'If' and any(x['k'] == 'Break' for x in astu.walk(n['t']))
                and 'aperture' in astu.src(n['c'])]
@@ -895,18 +883,132 @@ def _sampling(rep, prog, rot, pm):
                     l = astu.strip_casts(t['a'])
                     if l['k'] == 'Call' and l['callee']['qn'] in ('std::abs', 'fabs', 'std::fabs'):
                         got.add((astu.src(l['args'][0]), astu.src(t['b'])))
-            ok = got == {('x', 'aperture_x_max'), ('y', 'aperture_y_max')} and len(conj) == 2
-            detail = None if ok else astu.src(c)
+            lims = {}
+            for t in conj:
+                t = astu.strip_casts(t)
+                if t['k'] == 'Bin' and t['op'] in ('<', '<='):
+                    l = astu.strip_casts(t['a'])
+                    if l['k'] == 'Call' and l['callee']['qn'] in ('std::abs', 'fabs', 'std::fabs'):
+                        lims[astu.src(l['args'][0])] = R.tan_of(t['b'])
+            ok = lims == {'x': '_cone_angle_', 'y': '_cone_angle2_'} and len(conj) == 2
+            detail = None if ok else '%s with limits %s' % (astu.src(c), lims)
             if ok:
                 # x = tan(thetaC) cos(phiC), y = tan(thetaC) sin(phiC)
                 ok, detail = _tangent_plane(rot, w, L)
-        rep.add('SAMPLING', mode + ':window-test', where(rot, w.get('l')), 'a point is accepted only when |x| < x_max and |y| < y_max '
-                'with (x, y) = tan(thetaC) (cos phiC, sin phiC)', ok, detail)
+        rep.add('SAMPLING', mode + ':window-test', where(rot, w.get('l')), 'a point is accepted only when |x| < tan(_cone_angle_) and '
+                '|y| < tan(_cone_angle2_) with (x, y) = tan(thetaC) (cos phiC, sin phiC)', ok, detail)
         g = _enclosing(pm, ifs[0], 'If') if ifs else None
         okg = g is not None and 'isnormal' in astu.src(g['c']) and '_cone_angle2_' in astu.src(g['c']) and \
             g.get('e') is not None and any(x['k'] == 'Break' for x in astu.walk(g['e']))
         rep.add('SAMPLING', mode + ':window-only-when-given', where(rot, w.get('l')), 'the rejection applies when _cone_angle2_ is set; '
                 'otherwise the first sample is taken', okg)
+    for m, (srcs, missing) in sorted(R.stale.items()):
+        rep.add('SAMPLING', 'cache:' + m, where(rot), 'the cached data member %s (derived from %s) is refreshed or invalidated by every '
+                'function that writes its sources' % (m, sorted(srcs)), not missing,
+                '; '.join('%s writes %s but not %s' % (f, sorted(w_), m) for f, w_ in missing) or None)
+
+
+SOURCES = ('_cone_angle_', '_cone_angle2_')
+
+
+class _Resolver:
+    """definitions of a local or of a derived data member of the operation, with the guards of each definition"""
+    def __init__(self, prog, fn, L, pm):
+        self.prog, self.fn, self.L, self.pm = prog, fn, L, pm
+        self.stale = {}
+        self.member_writes = {}         # member -> [(function, assignment node, parent map)]
+        for key, f in prog.functions.items():
+            if f.get('cls') == MDL:
+                fpm = None
+                for n in astu.walk(f['body']):
+                    if n['k'] == 'Bin' and n['op'] in statics.ASSIGN_OPS and astu.is_this_member(n['a']):
+                        fpm = fpm or parent_map(f['body'])
+                        self.member_writes.setdefault(n['a']['name'], []).append((f, n, fpm))
+
+    @staticmethod
+    def sentinel(e):
+        e = astu.strip_casts(e)
+        v = astu.num_value(e)
+        return (v is not None and v < 0) or astu.src(e).endswith('quiet_NaN()')
+
+    def guards(self, node, pm):
+        out = []
+        x = node
+        while id(x) in pm:
+            par = pm[id(x)]
+            if par['k'] == 'If' and x is par.get('t'):
+                out.append(astu.src(par['c']))
+            x = par
+        return out
+
+    def defs(self, e):
+        """[(defining expression, guards)] skipping sentinel values"""
+        e = astu.strip_casts(e)
+        out = []
+        if e['k'] == 'Ref' and e.get('dk') == 'local':
+            v = self.L.decl.get(e['id'])
+            if v is not None and 'init' in v and not self.sentinel(v['init']):
+                out.append((v['init'], []))
+            for a in self.L.assigns.get(e['id'], []):
+                if not self.sentinel(a['b']):
+                    out.append((a['b'], self.guards(a, self.pm)))
+        elif astu.is_this_member(e) and e['name'] not in SOURCES:
+            m = e['name']
+            ws = self.member_writes.get(m, [])
+            srcs = set()
+            for f, a, fpm in ws:
+                if not self.sentinel(a['b']):
+                    out.append((a['b'], self.guards(a, fpm)))
+                    srcs |= self._sources(a['b'], f)
+            # staleness: every function that writes a source must also write the cached member
+            missing = []
+            writers_of_m = {f['qn'] + str(f['l']) for f, a, fpm in ws}
+            for s_ in srcs:
+                for f, a, fpm in self.member_writes.get(s_, []):
+                    if f['qn'] + str(f['l']) not in writers_of_m and (f['name'], (s_,)) not in [(x, tuple(y)) for x, y in missing]:
+                        missing.append((f['name'], [s_]))
+            self.stale[m] = (srcs, missing)
+        # single pass-through: a definition that is itself a plain local/member is followed
+        res = []
+        for d, g in out:
+            dd = astu.strip_casts(d)
+            if (dd['k'] == 'Ref' and dd.get('dk') == 'local') or (astu.is_this_member(dd) and dd['name'] not in SOURCES):
+                res.extend((x, g + g2) for x, g2 in self.defs(dd))
+            else:
+                res.append((d, g))
+        return res
+
+    def _sources(self, e, f):
+        out = set()
+        for x in astu.walk(e):
+            if astu.is_this_member(x):
+                if x['name'] in SOURCES:
+                    out.add(x['name'])
+                else:
+                    for f2, a, fpm in self.member_writes.get(x['name'], []):
+                        if not self.sentinel(a['b']) and a['b'] is not e:
+                            out |= self._sources(a['b'], f2)
+        return out
+
+    def call_form(self, e, names):
+        """e, or its single definition, as a call of one of `names`"""
+        e = astu.strip_casts(e)
+        if e['k'] == 'Call' and e['callee']['qn'] in names:
+            return e
+        ds = self.defs(e) if e['k'] in ('Ref', 'Member') else []
+        if len(ds) == 1:
+            d = astu.strip_casts(ds[0][0])
+            if d['k'] == 'Call' and d['callee']['qn'] in names:
+                return d
+        return None
+
+    def tan_of(self, e):
+        """name of the source member S when e is (defined as) tan(S)"""
+        c = self.call_form(e, ('tan', 'std::tan'))
+        if c is None:
+            return None
+        a = astu.strip_casts(c['args'][0])
+        return a['name'] if astu.is_this_member(a) and a['name'] in SOURCES else None
 
 
 def _conjuncts(c):
